@@ -344,7 +344,7 @@ class Observation:
             data_tree: "xr.DataTree" = run_pipeline(
                 processor=new_processor,
                 readout=self.readout,
-                outputs=self.outputs,
+                outputs=None,  # The files of this run are saved (with its run number) below
                 pipeline_seed=self.pipeline_seed,
                 debug=False,  # Not supported in Observation mode
                 with_inherited_coords=with_inherited_coords,
